@@ -236,6 +236,32 @@ def loop_program(rnd, chain, n, mutual=False):
     return forms
 
 
+def growing_loop_program(rnd, iters=None):
+    """A tail loop with a multi-form body: the non-last forms make ORDINARY (non-tail) calls - of a helper that recurses
+    deeper on each iteration than the stack has ever been, and of the loop function itself - and only the last form is
+    the tail call.  What a non-last form calls must run and return to it on every iteration, however the stack grew."""
+    iters = iters or rnd.choice([3, 4, 5, 6])
+    depth = rnd.choice([lambda i: [S("*"), i, i], lambda i: [S("*"), 3, i], lambda i: [S("+"), [S("*"), i, i], [S("*"), 2, i]],
+                        lambda i: [S("if"), [S("="), [S("mod"), i, 2], 0], 0, [S("*"), 4, i]]])(S("i"))
+    selfcall = rnd.choice([[S("walk"), 0, 0], [S("walk"), 0, 0], [S("walk"), 0, [S("-"), S("i"), 2]]])    # (the last one loops itself, over a smaller range)
+    if selfcall[2] != 0:
+        iters = min(iters, 4)
+    wrap = rnd.choice([lambda e: e, lambda e: [S("progn"), e], lambda e: [S("let"), [[S("q"), 1]], e], lambda e: [S("probe"), Q(S("sub")), e],
+                       lambda e: [S("list"), e], lambda e: [S("if"), S("true"), e, []]])
+    pre = [[S("probe"), Q(S("pre")), S("i")],
+           [S("deepen"), depth],
+           [S("if"), [S(">"), S("i"), 0], wrap(selfcall), []],
+           [S("probe"), Q(S("post")), S("i")]]
+    rnd.shuffle(pre)
+    if rnd.random() < 0.4:
+        pre.append([S("if"), [S(">"), S("i"), 1], wrap([S("walk"), 0, 0]), []])
+    last = [S("if"), [S(">="), S("i"), S("n")], [S("progn"), [S("probe"), Q(S("bottom")), S("i")], Q(S("done"))], [S("walk"), [S("+"), S("i"), 1], S("n")]]
+    forms = [[S("defun"), S("deepen"), [S("k")], [S("if"), [S("<="), S("k"), 0], [S("progn"), [S("probe"), Q(S("deep"))], 0], [S("+"), 1, [S("deepen"), [S("-"), S("k"), 1]]]]],
+             [S("defun"), S("walk"), [S("i"), S("n")]] + pre + [last],
+             [S("probe"), Q(S("result")), [S("walk"), 0, iters]]]
+    return forms
+
+
 def chain_class(ch):
     cs = [w[1] for w in ch]
     return "B" if "B" in cs else ("N" if "N" in cs else ("X" if "X" in cs else "T"))
